@@ -164,6 +164,12 @@ theorem unmerge_inverse_reachable {as : List Adm} {c : Graph} {a : Adm} {g : Gra
 
 example : mergeAll Graph.empty [exSite] = some (merge Graph.empty exSite).2 ∧ (∀ b ∈ [exSite], b.id ≠ exNet.id) := by decide
 
+/-- `unmerge_adm` never raises ("more than one delegation") on a non-empty combined model built by merges, whatever
+graph id it is given: every delegation there has exactly one entry. -/
+theorem unmerge_total_on_reachable {as : List Adm} {g : Graph} (hw : ∀ a ∈ as, a.WF)
+    (h : mergeAll Graph.empty as = some g) (hne : g.nodes ≠ []) (gid : String) : (unmerge g gid).1 = none :=
+  unmerge_ok_reachable hw h hne gid
+
 /-- non-vacuity: the guards hold for the network model against the combined model holding the site model, and the
 combined model gets a delegation and an element from it -/
 example : let c := (merge Graph.empty exSite).2
